@@ -585,11 +585,37 @@ class Body:
         if not ds:
             return ("local", l, self.lname(l))
         seen2 = _seen | {l}
+        if len(ds) == 1 and l in self._closure_mutated():
+            # a `let mut x` that a closure captured by `&mut`: its value afterwards is not (only) its initial definition
+            return ("phi", l, self.lname(l), [self._def_expr(ds[0], seen2, _depth + 1), ("opaque", "written through a closure's &mut capture")])
         if len(ds) == 1:
             return self._def_expr(ds[0], seen2, _depth + 1)
         if len(ds) <= 6:
             return ("phi", l, self.lname(l), [self._def_expr(d, seen2, _depth + 1) for d in ds])
         return ("local", l, self.lname(l))
+
+    def _closure_mutated(self):
+        """User variables whose `&mut` is captured by a closure / coroutine built in this body (the closure may assign them)."""
+        if getattr(self, "_cm", None) is None:
+            refs = {}    # temp local -> borrowed root local (mutable borrows of a whole local)
+            for bi, b in enumerate(self.blocks):
+                if b["cleanup"]:
+                    continue
+                for st in b["stmts"]:
+                    if st["k"] == "assign" and not st["lhs"]["p"] and "ref" in st["rv"] and st["rv"].get("mut") and not st["rv"]["ref"]["p"]:
+                        refs[st["lhs"]["l"]] = st["rv"]["ref"]["l"]
+            out = set()
+            for bi, b in enumerate(self.blocks):
+                if b["cleanup"]:
+                    continue
+                for st in b["stmts"]:
+                    if st["k"] == "assign" and st["rv"].get("agg") in ("closure", "coroutine"):
+                        for op in st["rv"].get("ops", []):
+                            pl = op.get("move") or op.get("copy")
+                            if pl is not None and not pl["p"] and pl["l"] in refs and self.locals[refs[pl["l"]]].get("user"):
+                                out.add(refs[pl["l"]])
+            self._cm = out
+        return self._cm
 
     def _def_expr(self, d, seen, depth):
         if d[0] == "assign":
